@@ -580,24 +580,53 @@ for cfg in ('abacus', 'stdsqrt'):
 U('C14', 'c14.sqrt_bound', 'lem_c14_sqrt_bound', 'pre_c14_sqrtb', None, lemma=True, cxx='lem_c14_sqrt_bound($1,$2)', **INTQ)
 
 def hypot_roles(fn_node):
-    """{uhi}, {ulo}: the two normalised operands compared by the third top-level `if( A < B )` of hypot"""
+    """cut point of hypot: just before the first top-level `if( U == 0 )` (operands are normalised and ordered there).
+    {uhi} is U, {ulo} the other local that is squared in the sum of squares; `cut` is the ordinal of that if statement
+    in the translator's numbering (pre-order over non-constexpr if statements)."""
     from vfx.extract import kids
     from vfx.core import Undecided
+
+    def strip(n):
+        while n.get('kind') in ('ImplicitCastExpr', 'ParenExpr', 'CXXStaticCastExpr'):
+            n = kids(n)[-1]
+        if n.get('kind') == 'CallExpr' and kids(n) and strip(kids(n)[0]).get('referencedDecl', {}).get('name') == '__builtin_expect':
+            return strip(kids(n)[1])
+        return n
     body = [c for c in kids(fn_node) if c.get('kind') == 'CompoundStmt'][0]
-    ifs = [c for c in kids(body) if c.get('kind') == 'IfStmt']
-    if len(ifs) < 3:
-        raise Undecided('hypot: fewer than three top-level if statements')
-    c = kids(ifs[2])[0]
-    while c.get('kind') in ('ImplicitCastExpr', 'ParenExpr'):
-        c = kids(c)[-1]
-    ops = [x for x in kids(c)]
-    def name(x):
-        while x.get('kind') in ('ImplicitCastExpr', 'ParenExpr'):
-            x = kids(x)[-1]
-        return x.get('referencedDecl', {}).get('name') if x.get('kind') == 'DeclRefExpr' else None
-    if c.get('kind') != 'BinaryOperator' or c.get('opcode') != '<' or not name(ops[0]) or not name(ops[1]):
-        raise Undecided('hypot: third if is not `A < B` on two locals')
-    return {'uhi': name(ops[0]), 'ulo': name(ops[1])}
+    counter = [0]
+    found = {}
+
+    def walk(n, top):
+        if n.get('kind') == 'IfStmt' and not n.get('isConstexpr'):
+            counter[0] += 1
+            if top and 'cut' not in found:
+                c = strip(kids(n)[0])
+                if c.get('kind') == 'BinaryOperator' and c.get('opcode') == '==':
+                    a, b = strip(kids(c)[0]), strip(kids(c)[1])
+                    if a.get('kind') == 'DeclRefExpr' and a['referencedDecl'].get('kind') == 'VarDecl' and b.get('value') == '0':
+                        found['cut'] = counter[0]
+                        found['uhi'] = a['referencedDecl']['name']
+        for c in kids(n):
+            walk(c, False)
+    for st in kids(body):
+        walk(st, True)
+    if 'cut' not in found:
+        raise Undecided('hypot: no top-level `if( U == 0 )` found')
+    squares = set()
+
+    def sq(n):
+        if n.get('kind') == 'BinaryOperator' and n.get('opcode') == '*':
+            a, b = strip(kids(n)[0]), strip(kids(n)[1])
+            if a.get('kind') == 'DeclRefExpr' and b.get('kind') == 'DeclRefExpr' and a['referencedDecl']['name'] == b['referencedDecl']['name']:
+                squares.add(a['referencedDecl']['name'])
+        for c in kids(n):
+            sq(c)
+    sq(body)
+    others = sorted(squares - {found['uhi']})
+    if len(others) != 1:
+        raise Undecided('hypot: cannot identify the smaller operand (squared locals: %s)' % sorted(squares))
+    found['ulo'] = others[0]
+    return found
 
 
 def hypot_params(fn_node):
@@ -609,13 +638,13 @@ OBS_PRELUDE = """
 unsigned long vf_obs_hi[8]; unsigned long vf_obs_lo[8]; int vf_obs_n;   /* ghost: operands observed at the cut point of hypot */
 """
 U('C14', 'c14.symmetry.cut', 'lem_c14_cut', 'pre_c14', None, lemma=True, cxx='lem_c14_cut($1,$2)',
-  prelude=OBS_PRELUDE, ghost={(HYPOT, ('after_if', 3)): 'vf_obs_hi[vf_obs_n] = {uhi}; vf_obs_lo[vf_obs_n] = {ulo}; vf_obs_n = vf_obs_n + 1;'},
+  prelude=OBS_PRELUDE, ghost={(HYPOT, ('before_if', 'ROLE:cut')): 'vf_obs_hi[vf_obs_n] = {uhi}; vf_obs_lo[vf_obs_n] = {ulo}; vf_obs_n = vf_obs_n + 1;'},
   role_binder=hypot_roles, role_fn=HYPOT,
   requires_extra=['vf_obs_n == 0'],
   ensures_extra=['vf_obs_n == 5 && vf_obs_hi[0] == vf_obs_hi[1] && vf_obs_hi[0] == vf_obs_hi[2] && vf_obs_hi[0] == vf_obs_hi[3] && vf_obs_hi[0] == vf_obs_hi[4]'
                  ' && vf_obs_lo[0] == vf_obs_lo[1] && vf_obs_lo[0] == vf_obs_lo[2] && vf_obs_lo[0] == vf_obs_lo[3] && vf_obs_lo[0] == vf_obs_lo[4]'],
   assigns_extra=['vf_obs_n', '__CPROVER_object_whole(vf_obs_hi)', '__CPROVER_object_whole(vf_obs_lo)'],
-  cut_check=(HYPOT, 3, 'PARAMS'),
+  cut_check=(HYPOT, 'ROLE:cut', 'PARAMS'),
   replace=[(SQRT, 'UF', 'post_sqrt_hyp')], backends=MULBE, timeout=900, no_canary=False)
 
 
